@@ -8,7 +8,9 @@ ASSUMPTIONS = ["no equivocation (fork-free DAG); honest nodes only; signature R 
 
 def run(ctx):
     cov, findings, diffs = None, [], []
-    for fl in ("static", "dyn", "split"):
+    for fl in ("static", "dyn", "split", "stall"):
+        # stall: quorum loss then recovery with node 0 on a BadgerStore whose cache (100) is smaller than the undetermined backlog:
+        # events and rounds of that node are evicted and re-read from the database while the others keep everything in memory
         res = simcommon.run(ctx, fl)
         f, d = simcommon.findings_for(res, "C01", None)
         findings += f; diffs += d
